@@ -149,35 +149,7 @@ def run(ctx):
     # ---------------------------------------------------------------- R5
     r = ctx.rule("C17-R5", "READONLY", "render() of every Component leaves the component's own state as it found it "
                  "(fields recomputed from scratch before use are allowed)", reference=6)
-    comp = ctx.cls("clikit.ui.component.Component")
-    for c in p.subclasses(comp, strict=True):
-        m = c.methods.get("render")
-        if m is None:
-            continue
-        bad = []
-        for ev in eff.events_in(m):
-            t = ev.token
-            if root(t) != ("p", "self") or is_fresh(t):
-                continue
-            flds = path_fields(t)
-            top = flds[-1] if flds else (ev.kind.split(":", 1)[1] if ev.kind.startswith(("attr-store", "call:attr-store")) and ":" in ev.kind else None)
-            if not flds and ev.kind.endswith(tuple(["attr-store:" + x for x in ()])):
-                pass
-            if not flds:
-                # direct store self.<attr> = ...  : attr name is in the event kind
-                top = ev.kind.rsplit(":", 1)[-1]
-            bad.append((top, ev))
-        if not bad:
-            r.ok("%s.render: no write to the component" % c.name)
-            continue
-        for top, ev in bad:
-            if _reset_before_use(ctx, m, top):
-                r.ok("%s.render: self.%s recomputed from scratch before use" % (c.name, top))
-            else:
-                o = ev.origin_event()
-                r.fail(m, ev.node, "self.%s via %s" % (top, norm(o.node)),
-                       "%s.render changes the component's own state (%s): a second render differs from the first"
-                       % (c.name, show(ev.token)), chain=ev.chain())
+    render_readonly_rule(ctx, r)
 
     # ---------------------------------------------------------------- R6
     r = ctx.rule("C17-R6", "OWNER", "class-level and module-level mutable containers are never mutated, except as a "
@@ -271,6 +243,42 @@ def run(ctx):
     return ctx.results
 
 
+def render_readonly_rule(ctx, r, mod_pred=None):
+    """READONLY rule (shared with C13 for the help pages)."""
+    p, cg, eff = ctx.p, ctx.cg, ctx.effects
+    comp = ctx.cls("clikit.ui.component.Component")
+    for c in p.subclasses(comp, strict=True):
+        if mod_pred is not None and not mod_pred(c.module.name):
+            continue
+        m = c.methods.get("render")
+        if m is None:
+            continue
+        bad = []
+        for ev in eff.events_in(m):
+            t = ev.token
+            if root(t) != ("p", "self") or is_fresh(t):
+                continue
+            flds = path_fields(t)
+            top = flds[-1] if flds else (ev.kind.split(":", 1)[1] if ev.kind.startswith(("attr-store", "call:attr-store")) and ":" in ev.kind else None)
+            if not flds and ev.kind.endswith(tuple(["attr-store:" + x for x in ()])):
+                pass
+            if not flds:
+                # direct store self.<attr> = ...  : attr name is in the event kind
+                top = ev.kind.rsplit(":", 1)[-1]
+            bad.append((top, ev))
+        if not bad:
+            r.ok("%s.render: no write to the component" % c.name)
+            continue
+        for top, ev in bad:
+            if _reset_before_use(ctx, m, top):
+                r.ok("%s.render: self.%s recomputed from scratch before use" % (c.name, top))
+            else:
+                o = ev.origin_event()
+                r.fail(m, ev.node, "self.%s via %s" % (top, norm(o.node)),
+                       "%s.render changes the component's own state (%s): a second render differs from the first"
+                       % (c.name, show(ev.token)), chain=ev.chain())
+
+
 def shared_objects_rule(ctx, rule_id, mod_pred, reference=None):
     p = ctx.p
     # ---------------------------------------------------------------- R7
@@ -309,7 +317,23 @@ def _reset_before_use(ctx, render, attr):
     p, cg = ctx.p, ctx.cg
     # methods (any object) reachable from render that touch <attr> on their own self
     hit = False
-    for f in cg.reachable([render]).values():
+    # only calls that stay on the same object count (self.m(), super().m()): another object's field of the same name,
+    # or this class's constructor reached through some unrelated factory call, says nothing about this component
+    same = {}
+    work = [render]
+    while work:
+        f_ = work.pop()
+        if f_.qualname in same:
+            continue
+        same[f_.qualname] = f_
+        for cs in cg.sites_in(f_):
+            fn_ = cs.node.func
+            on_self = isinstance(fn_, ast.Attribute) and isinstance(fn_.value, ast.Name) and fn_.value.id == "self"
+            if on_self or cs.kind == "super":
+                for t in cs.targets:
+                    if t.cls is not None and render.cls is not None and (t.cls in render.cls.mro or render.cls in t.cls.mro) and t.name != "__init__":
+                        work.append(t)
+    for f in same.values():
         if f.cls is None:
             continue
         acc = [n for n in walk_no_nested(f.node) if is_self_attr(n, attr)]
